@@ -1012,6 +1012,7 @@ package graphql
 //@ func suggestionListResult.Swap
 //@   props C12
 //@   requires 0 <= i && i < len(s.Options) && 0 <= j && j < len(s.Options) && len(s.Distances) == len(s.Options)
+//@   requires s.Distances[i] == s.Distances[i] && s.Distances[j] == s.Distances[j]
 //@   ensures s.Options[i] == old(s.Options[j]) && s.Options[j] == old(s.Options[i])
 //@   ensures s.Distances[i] == old(s.Distances[j]) && s.Distances[j] == old(s.Distances[i])
 //@ func getSuggestedFieldNames
